@@ -23,6 +23,7 @@ KEY_A = 'F-C05a-chg-hash-skipped-stripe'      # repaired in /repo (0d034b0): lis
 KEY_B = 'F-C05b-past-hash-length'
 KEY_C = 'F-C05c-all-deleted-stripe-zero-hash'
 KEY_D = 'F-C05d-reduced-hash-markers-ignored'    # found by this check (listed in known_findings.json)
+KEY_U = 'F-C05-unrecoverable-taken-back-chg-trusted'   # proposed: a <name>.unrecoverable left by an earlier fix is renamed back by the next fix and its blocks without a recorded hash (CHG) are trusted
 SYNC_OPTS = ['--force-empty', '--force-zero', '--test-force-murmur3']
 NAMES = ['A', 'B', 'C', 'K', 'X', 'Y', 'zK', 'sub/M', 'sub/N', 'P']
 
@@ -637,6 +638,8 @@ class Hist05:
                 known_paths.add((d, rel))
                 name = f['sub'].decode('latin1')
                 sel = self.selected(opts, d, f, before, st)
+                if rel.endswith('.unrecoverable'):
+                    sel = 'skip'      # the leftover of an earlier fix that a sync recorded as a file: fix may rename it back under its old name
                 b, c = before.get((d, rel)), after.get((d, rel))
                 if sel is False:
                     if (b[:3] if b else None) != (c[:3] if c else None):
@@ -675,10 +678,26 @@ class Hist05:
                     said = 'reported recovered' if ('status:recovered:%s:%s' % (d, name)) in tags else 'left under its name without report'
                     what = 'has bytes that are not the recorded version (size %d) and is %s (fix exit %d)' % (f['size'], said, r.rc)
                     keys, why = self.diagnose(d, f, ondisk, cands[0] if cands else None, st)
+                    # a file that was MISSING before this fix while <name>.unrecoverable (left by an earlier fix) was there: handle_create
+                    # renames that file back; every wrong block must then be a block without a recorded hash (CHG: "assumed correct")
+                    # holding exactly the bytes of the .unrecoverable file -- anything else is not this behaviour
+                    sib = before.get((d, rel + '.unrecoverable'))
+                    if b is None and sib is not None and sib[0] == 'f' and cands:
+                        good = cands[0]
+                        wrong = [k for k in range(len(f['blocks'])) if ondisk[k * a.bs:(k + 1) * a.bs] != good[k * a.bs:(k + 1) * a.bs]]
+                        if wrong and all(f['blocks'][k][0] == 'CHG' and ondisk[k * a.bs:(k + 1) * a.bs] == sib[1][k * a.bs:(k + 1) * a.bs] for k in wrong):
+                            keys = {KEY_U}
+                            why = ['%s.unrecoverable left by an earlier fix was renamed back; its blocks %s have no recorded hash (CHG) and were taken as correct' % (rel, wrong)]
                 property_ok = False
                 msg = 'after `fix %s` %s:%s %s; %s' % (' '.join(opts), d, rel, what, '; '.join(why)[:300])
                 if False:
                     pass
+                elif keys == {KEY_U}:
+                    self.stats['known'] += 1
+                    if any(k.get('property') == 'C05' and k.get('key') == KEY_U for k in chk.kf):
+                        chk.violation('wrong_file', msg, replay, finding_key=KEY_U)
+                    elif not any(n.startswith('OBSERVATION unrecoverable-taken-back') for n in chk.notes):
+                        chk.notes.append('OBSERVATION unrecoverable-taken-back (proposed key %s): %s' % (KEY_U, msg[:400]))
                 elif keys and keys <= {KEY_A, KEY_B, KEY_C, KEY_D}:
                     # every wrong block is explained by one of the known findings (a file may combine several)
                     self.stats['known'] += 1
